@@ -54,6 +54,7 @@ class Interp:
         self.frames: List[Frame] = []
         self.unmodelled: List[dict] = []
         self.ivspace: Dict[str, Space] = {}
+        self.blocks: Dict[str, Blocks] = {}
         from . import prims
         self.prims = prims.TABLE
         self.method_prims = prims.METHODS
@@ -309,9 +310,14 @@ class Interp:
             return Bag(sym.Choice([a.elem, b.elem]), None, False, a.src)
         if isinstance(a, FuncV) and isinstance(b, FuncV) and a.kind == b.kind and a.target == b.target:
             return a
-        if isinstance(a, ObjV) and isinstance(b, ObjV) and a is b:
+        if isinstance(a, ObjV) and isinstance(b, ObjV) and (a is b or (a.tag is not None and a.tag == b.tag
+                                                                       and a.cls == b.cls)):
             return a
-        return Alt([a, b])
+        vals = []
+        for x in (a.vals if isinstance(a, Alt) else [a]) + (b.vals if isinstance(b, Alt) else [b]):
+            if not any(_same_abstract(x, y) for y in vals):
+                vals.append(x)
+        return Alt(vals) if len(vals) > 1 else vals[0]
 
     def join_envs(self, c: Expr, e1: Optional[dict], e2: Optional[dict]) -> Optional[dict]:
         if e1 is None:
@@ -643,12 +649,13 @@ class Interp:
         for n in carried:
             v = env[n]
             if isinstance(v, Sc) and v.e[0] not in ("bool", "str"):
-                ph = sym.Sym(f"@carry:{n}:{fresh('c')}")
+                # placeholder for "value at the start of an iteration": facets of the initial value (the final
+                # join of initial value and update checks the inductive step)
+                ph = sym.Opq("carry", (v.e,), f"{n}:{fresh('c')}")
                 place[n] = ph
                 cur[n] = Sc(ph)
             elif isinstance(v, Arr) and v.kind == "nd":
-                name = f"@carry:{n}:{fresh('c')}"
-                ph = sym.In(name, tuple((i, 0) for _, i in v.axes))
+                ph = sym.Opq("carry", (v.elem,) + tuple(sym.IV(i) for _, i in v.axes), f"{n}:{fresh('c')}")
                 place[n] = ph
                 cur[n] = Arr(v.axes, ph, "nd", v.uid)
             elif isinstance(v, Seq) and v.kind == "list":
@@ -658,6 +665,7 @@ class Interp:
             ls = dict(continues=[], breaks=[], path_base=len(self.path))
             fr.loop_stack.append(ls)
             n0 = len(self.path)
+            n_log = len(self.log)
             if not is_for:
                 tv = self.eval(st.test, body_env)
                 c = self.truth(tv)
@@ -665,7 +673,6 @@ class Interp:
                 self.path.append(c)
             else:
                 self.assign(st.target, elem(), body_env, st)
-            n_log = len(self.log)
             r = self.exec_block(st.body, body_env)
             del self.path[n0:]
             fr.loop_stack.pop()
@@ -722,7 +729,7 @@ class Interp:
             for k, v in res.items():
                 if k not in env and k not in post:
                     post[k] = _forget_iv(v, iv) if iv else v
-            if stable:
+            if stable or rounds == 3:
                 break
             for n, v in post.items():
                 if n in carried and n not in place and not isinstance(cur[n], _SeqAcc):
@@ -858,7 +865,7 @@ class Interp:
                 return
         # 2-d slice stores assemble a block matrix
         if len(idx) == 2 and all(it[0] in ("slice", "full") for it in idx) and isinstance(base, (Arr, Blocks)) \
-                and (isinstance(base, Blocks) or base.ndim == 2):
+                and (isinstance(base, Blocks) or (base.ndim == 2 and all(sp.concrete is None for sp, _ in base.axes))):
             if isinstance(base, Arr):
                 b = Blocks((base.axes[0][0].size, base.axes[1][0].size), base.elem, [], base.uid)
             else:
@@ -875,6 +882,7 @@ class Interp:
             vshape = shape_of(v)
             b.stores.append(dict(r0=bounds[0], r1=bounds[1], c0=bounds[2], c1=bounds[3], val=v, node=st,
                                  vshape=vshape))
+            self.blocks[b.uid] = b
             if name:
                 env[name] = b
             return
@@ -889,52 +897,93 @@ class Interp:
         return
 
     def _store_into_arr(self, base: Arr, idx, v: Val, st) -> Optional[Val]:
-        items = list(idx) + [("full",)] * (base.ndim - len([i for i in idx if i[0] != "new"]))
+        n_real = len([i for i in idx if i[0] != "new"])
+        items = [i for i in idx if i[0] != "new"] + [("full",)] * (base.ndim - n_real)
         if len(items) != base.ndim:
             return None
-        e = base.elem
-        # value element aligned with the kept axes
-        kept = [(k, ax) for k, (ax, it) in enumerate(zip(base.axes, items)) if it[0] in ("full",)]
-        cond = sym.TRUE
-        sel_axis = None
-        for k, ((sp, iv), it) in enumerate(zip(base.axes, items)):
-            if it[0] == "full":
-                continue
-            if it[0] == "int" and sp.concrete is not None:
-                sel_axis = (k, iv, it[1] % sp.concrete, sp.concrete)
-            elif it[0] == "expr" and it[1][0] == "iv":
-                # store at the current loop position: element-wise definition over that axis
-                cond = sym.And(cond, sym.Cmp("==", sym.IV(iv), it[1])) if False else cond
-                e_new = self._value_elem(v, [ax for kk, ax in kept])
-                if e_new is None:
-                    return None
-                # rename the loop ivar to the axis ivar
-                e_new = sym.subst_ivar(e_new, it[1][1], (iv, -it[1][2]))
-                path_cond = sym.TRUE
-                return Arr(base.axes, e_new if self._store_uncond(st) else sym.Choice([e_new, e]), base.kind, base.uid)
-            elif it[0] == "mask":
-                m = it[1]
-                if isinstance(m, Arr) and m.ndim == base.ndim and len(idx) == 1:
-                    me = m.elem
-                    for (s0, i0), (s1, i1) in zip(base.axes, m.axes):
-                        me = sym.subst_ivar(me, i1, (i0, 0))
-                    ve = self._value_elem(v, [])
-                    if ve is None:
-                        return None
-                    return Arr(base.axes, sym.ITE(me, ve, e), base.kind, base.uid)
+        e_old = base.elem
+        if isinstance(v, Sc):
+            ve, vaxes = v.e, []
+        else:
+            a = arrays.to_arr(v) if not isinstance(v, Arr) else v
+            if not isinstance(a, Arr):
                 return None
+            a = a.renamed()
+            ve, vaxes = a.elem, list(a.axes)
+        # axes of the indexed region, in order
+        region = []
+        for (sp, iv), it in zip(base.axes, items):
+            if it[0] == "full":
+                region.append(("full", sp, iv, None))
+            elif it[0] == "int" and sp.concrete is not None:
+                region.append(("int", sp, iv, [it[1] % sp.concrete]))
+            elif it[0] == "slice" and sp.concrete is not None and all(
+                    b_ is None or (b_[0] == "num" and float(b_[1]).is_integer()) for b_ in it[1:4]):
+                K = list(range(sp.concrete))[slice(None if it[1] is None else int(it[1][1]),
+                                                   None if it[2] is None else int(it[2][1]),
+                                                   None if it[3] is None else int(it[3][1]))]
+                region.append(("slice", sp, iv, K))
+            elif it[0] == "mask" and isinstance(it[1], Arr) and it[1].ndim == 1:
+                region.append(("mask", sp, iv, it[1]))
+            elif it[0] == "mask" and isinstance(it[1], Arr) and it[1].ndim == base.ndim and len(idx) == 1:
+                me = it[1].elem
+                for (s0, i0), (s1, i1) in zip(base.axes, it[1].axes):
+                    me = sym.subst_ivar(me, i1, (i0, 0))
+                if vaxes:
+                    return None
+                return Arr(base.axes, sym.ITE(me, ve, e_old), base.kind, base.uid)
+            elif it[0] == "expr" and it[1][0] == "iv":
+                region.append(("pos", sp, iv, it[1]))
             else:
                 return None
-        if sel_axis is not None:
-            k, iv, pos, n = sel_axis
-            ve = self._value_elem(v, [ax for kk, ax in kept])
-            if ve is None:
-                return None
+        # value axes align (from the right) with the region axes that keep a dimension
+        keep = [r for r in region if r[0] in ("full", "slice", "mask")]
+        if len(vaxes) > len(keep):
+            return None
+        pairs = list(zip(reversed(keep), reversed(vaxes)))
+        vmap = {}
+        for r, (vsp, viv) in pairs:
+            kind, sp, iv, data = r
+            if kind == "full":
+                if not vsp.same_size(sp) and vsp.concrete != 1:
+                    raise ShapeError(f"could not broadcast value axis of size {sym.show(vsp.size)} into axis of size "
+                                     f"{sym.show(sp.size)}")
+                ve = sym.subst_ivar(ve, viv, (iv, 0) if vsp.concrete != 1 or sp.concrete == 1 else 0)
+            elif kind == "slice":
+                if vsp.concrete not in (len(data), 1):
+                    raise ShapeError(f"could not broadcast {vsp.concrete} values into {len(data)} positions")
+                vmap[iv] = (viv, vsp.concrete)
+            elif kind == "mask":
+                return None  # masked assignment of an array of values is not modelled
+        cond = sym.TRUE
+        for kind, sp, iv, data in region:
+            if kind == "mask":
+                msp, miv = data.axes[0]
+                if not msp.same_size(sp):
+                    raise ShapeError(f"boolean index of size {sym.show(msp.size)} on axis of size {sym.show(sp.size)}")
+                cond = sym.And(cond, sym.subst_ivar(data.elem, miv, (iv, 0)))
+            elif kind == "pos":
+                ve = sym.subst_ivar(ve, data[1], (iv, -data[2]))
+        conc = [(iv, data, sp.concrete) for kind, sp, iv, data in region if kind in ("int", "slice")]
+
+        def build(level, ve_cur, old_cur):
+            if level == len(conc):
+                return sym.ITE(cond, ve_cur, old_cur) if cond != sym.TRUE else ve_cur
+            iv, K, n = conc[level]
             alts = []
             for j in range(n):
-                alts.append(ve if j == pos else sym.subst_ivar(e, iv, j))
-            return Arr(base.axes, sym.Sel(iv, tuple(alts)), base.kind, base.uid)
-        return None
+                oj = sym.subst_ivar(old_cur, iv, j)
+                if j in K:
+                    vj = ve_cur
+                    if iv in vmap:
+                        viv, vn = vmap[iv]
+                        vj = sym.subst_ivar(vj, viv, K.index(j) if vn != 1 else 0)
+                    alts.append(build(level + 1, vj, oj))
+                else:
+                    alts.append(oj)
+            return sym.Sel(iv, tuple(alts))
+
+        return Arr(base.axes, build(0, ve, e_old), base.kind, base.uid)
 
     def _store_uncond(self, st) -> bool:
         return True
@@ -1319,6 +1368,15 @@ class Interp:
         return FuncV("method", attr, bound_self=base)
 
     def subscript(self, base: Val, idx: list, node) -> Val:
+        if isinstance(base, Alt):
+            outs = []
+            for x in base.vals:
+                if isinstance(x, DictV) and not x.d and x.generic is None:
+                    continue  # KeyError path: raises, yields no value
+                outs.append(self.subscript(x, idx, node))
+            if len(outs) == 1:
+                return outs[0]
+            return Alt(outs) if outs else self.unknown("dict-lookup", node)
         if isinstance(base, DictV):
             k = idx[0]
             if k[0] in ("str", "int") and k[1] in base.d:
